@@ -8,7 +8,12 @@ Implementation side: the program is rendered to source in a scratch package (one
 references, `from __future__ import annotations`, `TYPE_CHECKING`-only imports), imported, the real
 `ClassDiagram` is built (in the given order and in the reverse order) and observed through its public surface:
 `wrapped_classes`, `inheritance_relations`, `associations`, the `WrappedField` predicates of every discovered
-field; then the operations are applied and every diagram that existed before an operation is snapshot again.
+field; then the operations are applied and every diagram that existed before an operation is snapshot again
+(these snapshots read the graph only, so they do not warm any accessor cache). Operations include calling one
+accessor for one class on any diagram — source or derived view, in any order. After the run every diagram's
+per-class accessors (`get_out_edges`, `get_outgoing_relations`, `get_associations_with_condition`,
+`get_outgoing/incoming_neighbors_with_relation_type`) are read for every class, original first or derived views
+first (`(final b)`), and must report exactly that diagram's own graph (`R[...]` lists the ones that do not).
 
 Ground truth never comes from the code under test: the Lean driver computes `spec=` from the generating terms."""
 from __future__ import annotations
@@ -40,8 +45,9 @@ THEOREMS = [
     "KrroodVerif.CD.C17_views_pure",
     "KrroodVerif.CD.C17_views_partial",
     "KrroodVerif.CD.C17_cex_subdiagram",
+    "KrroodVerif.CD.C17_accessors",
 ]
-MODEL_FUNCTION = ("CD.flags / CD.endpoint / CD.build / CD.derive / CD.stepOp (Model/ClassDiagram.lean) = "
+MODEL_FUNCTION = ("CD.flags / CD.endpoint / CD.build / CD.derive / CD.stepOp / CD.reported (Model/ClassDiagram.lean) = "
                   "wrapped_field.py predicates, ClassDiagram.__post_init__, to_subdiagram_without_inherited_associations")
 TRUSTED = [
     "Lean 4.33 kernel; axioms of each theorem listed under coverage.theorems",
@@ -131,7 +137,8 @@ def _ann_of(s):
 class Prog:
     """python-side structured form of a case"""
 
-    def __init__(self, future=False, mods=1, imp=0, enums=0, defs=None, modof=None, order=None, ops=None):
+    def __init__(self, future=False, mods=1, imp=0, enums=0, defs=None, modof=None, order=None, ops=None, final=0):
+        self.final = final  # 0: accessors are read original-first at the end, 1: derived views first
         self.future = future
         self.mods = mods
         self.imp = imp
@@ -150,11 +157,14 @@ class Prog:
         for op in self.ops:
             if op[0] == "q":
                 ops.append(f"(q {op[1]} {op[2]})")
+            elif op[0] == "acc":
+                ops.append(f"(acc {op[1]} {op[2]} {op[3]})")
             elif op[0] == "copy":
                 ops.append(f"(copy {op[1]})")
             else:
                 ops.append(f"({op[0]} {op[1]} {'T' if op[2] else 'F'})")
         return (f"(cd (future {1 if self.future else 0}) (mods {self.mods}) (imp {self.imp}) (enums {self.enums}) "
+                f"(final {self.final}) "
                 f"(modof{''.join(' ' + str(m) for m in self.modof)}) (defs{''.join(' ' + d for d in ds)}) "
                 f"(order{''.join(' ' + str(o) for o in self.order)}) (ops{''.join(' ' + o for o in ops)}))")
 
@@ -173,6 +183,8 @@ class Prog:
         for o in items.get("ops", []):
             if o[0] == "q":
                 ops.append(("q", int(o[1]), int(o[2])))
+            elif o[0] == "acc":
+                ops.append(("acc", int(o[1]), int(o[2]), int(o[3])))
             elif o[0] == "copy":
                 ops.append(("copy", int(o[1])))
             else:
@@ -180,12 +192,13 @@ class Prog:
         modof = [int(m) for m in items.get("modof", [])] or [0] * len(defs)
         return Prog(future=items.get("future", ["0"])[0] == "1", mods=int(items.get("mods", ["1"])[0]),
                     imp=int(items.get("imp", ["0"])[0]), enums=int(items.get("enums", ["0"])[0]), defs=defs,
-                    modof=modof, order=[int(o) for o in items["order"]], ops=ops)
+                    modof=modof, order=[int(o) for o in items["order"]], ops=ops,
+                    final=int(items.get("final", ["0"])[0]))
 
     def copy(self) -> "Prog":
         return Prog(self.future, self.mods, self.imp, self.enums,
                     [(c, list(b), list(f)) for c, b, f in self.defs], list(self.modof), list(self.order),
-                    list(self.ops))
+                    list(self.ops), self.final)
 
 
 def strip_fwd(a):
@@ -416,6 +429,93 @@ def _query(d, k: int) -> None:
                 _ = f.resolved_type, f.type_endpoint, f.is_optional, f.is_container
 
 
+def _rel_str(r) -> str:
+    f = getattr(r, "field", None)
+    if f is None:
+        return f"{r.source.clazz.__name__}>{r.target.clazz.__name__}"
+    return f"{r.source.clazz.__name__}.{f.field.name}>{r.target.clazz.__name__}"
+
+
+def _access(d, c: int, k: int) -> None:
+    """one read-only accessor for class `C<c>` of diagram `d` (its result is irrelevant here, only what it leaves behind)"""
+    from krrood.class_diagrams.class_diagram import Association, Inheritance
+    ws = [w for w in d.wrapped_classes if w.clazz.__name__ == f"C{c}"]
+    if not ws:
+        return
+    w = ws[0]
+    k = k % 6
+    if k == 0:
+        d.get_out_edges(w)
+    elif k == 1:
+        d.get_out_edges(w.clazz)
+    elif k == 2:
+        list(d.get_outgoing_relations(w.clazz))
+    elif k == 3:
+        list(d.get_associations_with_condition(w, lambda a: True))
+    elif k == 4:
+        for rt in (Association, Inheritance):
+            d.get_outgoing_neighbors_with_relation_type(w, rt)
+            d.get_incoming_neighbors_with_relation_type(w, rt)
+    else:
+        d.get_role_taker_associations_of_cls(w)
+
+
+def _reports(d, i: int) -> List[str]:
+    """What the public per-class accessors of diagram `d` report, against the diagram's own graph (read through
+    `inheritance_relations` / `associations`). Returns the disagreements; [] when every accessor reports the graph."""
+    from krrood.class_diagrams.class_diagram import Association, Inheritance
+    inh = sorted(_rel_str(r) for r in d.inheritance_relations)
+    ass = sorted(_rel_str(r) for r in d.associations)
+    truth = {
+        "all": (inh, ass),
+        "assoc": ([], ass),
+    }
+    ws = list(d.wrapped_classes)
+
+    def split(rels):
+        rels = list(rels)
+        return (sorted(_rel_str(r) for r in rels if isinstance(r, Inheritance)),
+                sorted(_rel_str(r) for r in rels if isinstance(r, Association)))
+
+    views = {}
+    try:
+        views["get_out_edges"] = ("all", split(r for w in ws for r in d.get_out_edges(w)))
+        views["get_out_edges(type)"] = ("all", split(r for w in ws for r in d.get_out_edges(w.clazz)))
+        views["get_outgoing_relations"] = ("all", split(r for w in ws for r in d.get_outgoing_relations(w.clazz)))
+        views["get_associations_with_condition"] = (
+            "assoc", split(r for w in ws for r in d.get_associations_with_condition(w, lambda a: True)))
+    except Exception as e:  # noqa: BLE001
+        return [f"d{i}=<{type(e).__name__}>"]
+    out = []
+    main = views["get_out_edges"][1]
+    for name, (key, got) in views.items():
+        if got != truth[key]:
+            out.append((name, got))
+    # neighbour accessors: pairs (class, neighbour) per relation type, against the graph's pairs
+    pair_truth = {
+        Inheritance: sorted({(r.source.clazz.__name__, r.target.clazz.__name__) for r in d.inheritance_relations}),
+        Association: sorted({(r.source.clazz.__name__, r.target.clazz.__name__) for r in d.associations}),
+    }
+    nb = []
+    try:
+        for rt in (Inheritance, Association):
+            succ = sorted({(w.clazz.__name__, n.clazz.__name__) for w in ws
+                           for n in d.get_outgoing_neighbors_with_relation_type(w, rt)})
+            pred = sorted({(n.clazz.__name__, w.clazz.__name__) for w in ws
+                           for n in d.get_incoming_neighbors_with_relation_type(w, rt)})
+            if succ != pair_truth[rt]:
+                nb.append(f"d{i}.outgoing_neighbors({rt.__name__})=" + ",".join(f"{a}>{b}" for a, b in succ))
+            if pred != pair_truth[rt]:
+                nb.append(f"d{i}.incoming_neighbors({rt.__name__})=" + ",".join(f"{a}>{b}" for a, b in pred))
+    except Exception as e:  # noqa: BLE001
+        nb.append(f"d{i}.neighbors=<{type(e).__name__}>")
+    if not out and not nb:
+        return []
+    res = [f"d{i}=I[" + ",".join(main[0]) + "] A[" + ",".join(main[1]) + "]"]
+    res += [f"d{i}.{name}=I[" + ",".join(g[0]) + "] A[" + ",".join(g[1]) + "]" for name, g in out if name != "get_out_edges"]
+    return res + nb
+
+
 def _apply(diagrams: list, op: tuple, scratch: str) -> None:
     import copy as _copy
     kind = op[0]
@@ -424,6 +524,8 @@ def _apply(diagrams: list, op: tuple, scratch: str) -> None:
     d = diagrams[op[1]]
     if kind == "q":
         _query(d, op[2])
+    elif kind == "acc":
+        _access(d, op[2], op[3])
     elif kind == "render":
         # rendering may fail for reasons that are not C17's (rustworkx_utils API); only its effect on the diagram counts
         try:
@@ -483,7 +585,13 @@ def _observe(p: Prog, root: str) -> str:
                 if a != b:
                     ch.append(f"d{i}={a}")
             chs.append(";".join(ch))
-        return static + " V[" + "|".join(chs) + "]"
+        # after the run: what every diagram's accessors report, read original-first or derived-views-first
+        idx = list(range(len(diagrams)))
+        if p.final:
+            idx.reverse()
+        rep = {i: _reports(diagrams[i], i) for i in idx}
+        reports = [r for i in sorted(rep) for r in rep[i]]
+        return static + " V[" + "|".join(chs) + "] R[" + ";".join(reports) + "]"
     finally:
         _cleanup_modules(pkg)
         shutil.rmtree(pdir, ignore_errors=True)
@@ -754,16 +862,19 @@ def gen_prog(rng, tags: set) -> Prog:
     for _ in range(rng.choice([0, 1, 1, 2, 3, 4, 5])):
         r = rng.random()
         d = rng.randrange(nd)
-        if r < 0.45:
+        if r < 0.40:
             p.ops.append(("sub", d, rng.random() < 0.5))
             nd += 1
-        elif r < 0.65:
+        elif r < 0.53:
             p.ops.append(("q", d, rng.randrange(6)))
-        elif r < 0.8:
+        elif r < 0.73:
+            p.ops.append(("acc", d, rng.choice(order), rng.randrange(6)))
+        elif r < 0.84:
             p.ops.append(("render", d, rng.random() < 0.5))
         else:
             p.ops.append(("copy", d))
             nd += 1
+    p.final = rng.randrange(2)
     if p.future:
         tags.add("future-annotations")
     if p.mods == 2:
@@ -886,7 +997,11 @@ def _exhaustive_hier(tier: str) -> List[Case]:
         "to-sub": {0: [("fwd", ("cls", 1)), ("cls", T)], 1: [], 2: [("cls", 0)]},
     }
     opseqs = [[], [("sub", 0, False)], [("sub", 0, True)], [("sub", 0, False), ("sub", 0, True)],
-              [("copy", 0), ("sub", 1, True), ("q", 0, 2)], [("sub", 0, True), ("sub", 1, False), ("render", 0, True)]]
+              [("copy", 0), ("sub", 1, True), ("q", 0, 2)], [("sub", 0, True), ("sub", 1, False), ("render", 0, True)],
+              # single accessor calls on the derived view and on the source, in both orders
+              [("sub", 0, False), ("acc", 1, 2, 0)], [("sub", 0, False), ("acc", 0, 2, 0), ("acc", 1, 2, 0)],
+              [("sub", 0, True), ("acc", 1, 1, 3), ("acc", 0, 1, 3)], [("acc", 0, 2, 1), ("sub", 0, False), ("acc", 1, 2, 2)],
+              [("sub", 0, False), ("q", 1, 0), ("q", 0, 0)]]
     orders = [[0, 1, 2, 3], [3, 2, 1, 0], [2, 0, 3, 1], [0, 2, 3], [1, 2, 3], [2, 3], [0, 1, 2], [1, 3, 0]]
     if tier == "quick":
         orders = orders[:6]
@@ -904,9 +1019,13 @@ def _exhaustive_hier(tier: str) -> List[Case]:
                             fl.append((False, fidx, a))
                             fidx += 1
                         defs.append((c, list(sh[c]), fl))
-                    p = Prog(defs=defs, order=list(order), ops=list(ops))
-                    cases.append(_mk(p, {"exh:hier", "shape:" + sname, "fields:" + fname, f"ops:{len(ops)}"},
-                                     "exhaustive"))
+                    # final accessor read-out: original first; and derived views first when there is a derived view
+                    finals = (0, 1) if any(o[0] in ("sub", "copy") for o in ops) and (k >= 6 or order in orders[:2]) \
+                        else (0,)
+                    for fin in finals:
+                        p = Prog(defs=defs, order=list(order), ops=list(ops), final=fin)
+                        cases.append(_mk(p, {"exh:hier", "shape:" + sname, "fields:" + fname, f"ops:{len(ops)}",
+                                             f"final:{'derived-first' if fin else 'original-first'}"}, "exhaustive"))
     return cases
 
 
@@ -938,8 +1057,13 @@ def extra_coverage() -> Dict[str, Any]:
         "observed": "wrapped_classes, inheritance_relations, associations (with field names), the seven WrappedField "
                     "predicates + type_endpoint of every discovered field, snapshot of every existing diagram after "
                     "each operation",
-        "operations": "q = six bundles of read-only accessors; render = _build_rxnode_tree; copy = copy.copy(diagram); "
+        "operations": "q = six bundles of read-only accessors; acc = one accessor for one class on one diagram (source "
+                      "or derived view); render = _build_rxnode_tree; copy = copy.copy(diagram); "
                       "sub = to_subdiagram_without_inherited_associations(include_field_name)",
+        "accessor_reports": "after the run, for every diagram (original first / derived views first): get_out_edges "
+                            "(by wrapped class and by class), get_outgoing_relations, get_associations_with_condition, "
+                            "get_outgoing/incoming_neighbors_with_relation_type for every class, compared with the "
+                            "diagram's own graph",
         "restricted_observation": "annotations with more than one wrapper or a general Union: is_optional and the "
                                   "association edge only (mirror of CD.plain)",
     }
